@@ -309,7 +309,7 @@ fn gen_blk(ch: &mut Chooser, p: &P12, unit: &str, t_units: usize, depth: usize, 
             let i = id(ctr);
             inner.push(Inner::Line {
                 w: unit.repeat(f_units),
-                text: format!("{i}(); // 開"),
+                text: format!("🧹 {i}(); // 開"),
                 id: i,
             });
         } else if c == ws_at {
@@ -505,8 +505,13 @@ fn gen12(ch: &mut Chooser, p: &P12) -> Case12 {
         }
     }
     render_blk(&blk, &mut lines);
-    lines.push("S();".into());
-    let src = lines.join("\n") + "\n";
+    // a line behind the block, or the closing tag is the last thing in the file (no line break)
+    let src = if ch.choose(3) == 2 {
+        lines.join("\n")
+    } else {
+        lines.push("S();".into());
+        lines.join("\n") + "\n"
+    };
     let a = surv_inside_out(&blk);
     let b = surv_outside_in(&blk, &[]);
     let asserted = a == b;
@@ -824,7 +829,7 @@ pub fn run(r: &Report, prop: &str) {
         "C12" => {
             r.set_rule("all unwrap layouts: indentation unit {2 spaces, 4 spaces, tab} x tag indent T 0..2 units x first inner line indent F in max(T-1,0)..T+2 x 1..K further inner lines each {code at indent 0..F+E units, multi-byte code, blank, nested ready/pending default-strategy element, nested unwrap-block (to depth D)} x {0..2 lines, an earlier removal, or a removed block directly above} before the block, both attribute orders, whitespace-only body lines; expectation per surviving inner line from the dedent rule (shift = max(F-T,0), never left of column T, whitespace only), nested blocks by sequential composition, asserted where inside-out and outside-in composition agree; non-trivial = distinct layouts with a positive shift and a line indented less than F or T, or depth >= 2, or block on line 1");
             let p = match r.tier {
-                Tier::Quick => P12 { units: vec!["  ", "\t"], max_further: vec![2, 2], max_depth: 2, max_extra_indent: 1, mb: false },
+                Tier::Quick => P12 { units: vec!["  ", "\t"], max_further: vec![2, 2], max_depth: 2, max_extra_indent: 1, mb: true },
                 Tier::Thorough => P12 { units: vec!["  ", "    ", "\t"], max_further: vec![3, 1, 1], max_depth: 3, max_extra_indent: 2, mb: true },
             };
             let ambiguous = std::sync::atomic::AtomicU64::new(0);
